@@ -979,6 +979,68 @@ func genBounds(l *loaded) string {
 	return b.String()
 }
 
+// ---------------------------------------------------------------------------- struct layouts
+
+func ptrShaped(t types.Type) string {
+	switch u := t.Underlying().(type) {
+	case *types.Pointer, *types.Map, *types.Chan, *types.Signature:
+		return "ptr"
+	case *types.Basic:
+		if u.Kind() == types.UnsafePointer {
+			return "ptr"
+		}
+		return "scalar"
+	case *types.Array:
+		return "array-of-" + ptrShaped(u.Elem())
+	case *types.Struct:
+		return "struct"
+	case *types.Slice:
+		return "slice"
+	case *types.Interface:
+		return "iface"
+	}
+	return "other"
+}
+
+// layout of the decoder's _Stack as the compiler lays it out on amd64, and the hand-computed offsets the JIT uses
+func genLayout(l *loaded) string {
+	var b strings.Builder
+	b.WriteString("/- GENERATED by go/factx from the repository's source on every run. Do not edit. -/\nnamespace SonicSpec.Gen\n\n")
+	p := l.pkg("internal/decoder/jitdec")
+	if p == nil {
+		b.WriteString("end SonicSpec.Gen\n")
+		return b.String()
+	}
+	sizes := types.SizesFor("gc", "amd64")
+	obj := p.Types.Scope().Lookup("_Stack")
+	if obj == nil {
+		fail("jitdec._Stack not found")
+	} else if st, ok := obj.Type().Underlying().(*types.Struct); !ok {
+		fail("jitdec._Stack is not a struct")
+	} else {
+		var fs []*types.Var
+		for i := 0; i < st.NumFields(); i++ {
+			fs = append(fs, st.Field(i))
+		}
+		offs := sizes.Offsetsof(fs)
+		b.WriteString("/-- internal/decoder/jitdec._Stack: (field, offset, size, shape) on amd64 -/\ndef decStackLayout : List (String × Int × Int × String) := [")
+		for i, f := range fs {
+			if i > 0 {
+				b.WriteString(",")
+			}
+			fmt.Fprintf(&b, "\n  (%s, %d, %d, %s)", leanStr(f.Name()), offs[i], sizes.Sizeof(f.Type()), leanStr(ptrShaped(f.Type())))
+		}
+		fmt.Fprintf(&b, "]\n\n/-- unsafe.Sizeof(_Stack{}) -/\ndef decStackSize : Int := %d\n\n", sizes.Sizeof(obj.Type()))
+	}
+	for _, c := range []struct{ name, lean string }{{"_FsmOffset", "decFsmOffset"}, {"_DbufOffset", "decDbufOffset"}, {"_EpOffset", "decEpOffset"}, {"_StackSize", "decStackSizeConst"}, {"_MaxStack", "decJitMaxStack"}, {"_MaxDigitNums", "decMaxDigitNums"}} {
+		if v, ok := l.constInt("internal/decoder/jitdec", c.name); ok {
+			fmt.Fprintf(&b, "/-- internal/decoder/jitdec.%s -/\ndef %s : Int := %s\n", c.name, c.lean, v)
+		}
+	}
+	b.WriteString("\nend SonicSpec.Gen\n")
+	return b.String()
+}
+
 func main() {
 	if len(os.Args) != 3 {
 		fmt.Fprintln(os.Stderr, "usage: factx <repo root> <output dir>")
@@ -986,11 +1048,12 @@ func main() {
 	}
 	root, out := os.Args[1], os.Args[2]
 	l := load(root, []string{"", "encoder", "decoder", "option", "ast", "internal/encoder", "internal/encoder/alg", "internal/encoder/vars",
-		"internal/decoder/consts", "internal/decoder/api", "internal/decoder/errors", "internal/native/types", "internal/caching", "internal/rt"})
+		"internal/decoder/consts", "internal/decoder/api", "internal/decoder/errors", "internal/decoder/jitdec", "internal/native/types", "internal/caching", "internal/rt"})
 	files := map[string]string{
 		"Consts.lean": genConsts(l),
 		"Opts.lean":   genOpts(l),
 		"Bounds.lean": genBounds(l),
+		"Layout.lean": genLayout(l),
 	}
 	os.MkdirAll(out, 0o755)
 	for name, content := range files {
